@@ -275,6 +275,8 @@ def eval_sites(facts):
 
     def handle(fn, qual, paths, item_sym=None):
         for p in paths:
+            cands = []
+            seen_vals = set()
             for i, ev in enumerate(p.events):
                 if ev[0] == 'return' and ev[1] is not None:
                     direct = find_all(ev[1], lambda t: t[0] == 'mcall' and t[2] == 'eval' and len(t[3]) == 3)
@@ -282,12 +284,23 @@ def eval_sites(facts):
                     for v in direct:
                         if v not in assigned:
                             sites.append(EvalSite(qual, ev[2], v[1], v[3][0], v[3][1], p, additive_const(ev[1], v), 'RETURN', ev[1]))
+                            seen_vals.add(v)
                     continue
                 if ev[0] != 'value':
                     continue
                 v = ev[1]
                 if not (v[0] == 'mcall' and v[2] == 'eval' and len(v[3]) == 3):
                     continue
+                cands.append((i, v, ev[2]))
+                seen_vals.add(v)
+            # an evaluation that only ever stands inside a larger expression (`c_int32(x.eval(..)).value`) is no event of its own:
+            # it is found in the conditions it steers
+            for t, pol, cnode in p.conds:
+                for v in find_all(t, lambda t_: t_[0] == 'mcall' and t_[2] == 'eval' and len(t_[3]) == 3):
+                    if v not in seen_vals and cnode is not None:
+                        seen_vals.add(v)
+                        cands.append((-1, v, cnode))
+            for i, v, vnode in cands:
                 # where does the value go?
                 post = 0
                 baked = False
@@ -315,7 +328,7 @@ def eval_sites(facts):
                 ret = None
                 if returned:
                     ret = [e for e in p.events if e[0] == 'return'][-1][1]
-                sites.append(EvalSite(qual, ev[2], v[1], v[3][0], v[3][1], p, post, kind, ret))
+                sites.append(EvalSite(qual, vnode, v[1], v[3][0], v[3][1], p, post, kind, ret))
 
     for fname, fn in facts.funcs.items():
         has = any(isinstance(n, ast.Call) and isinstance(n.func, ast.Attribute) and n.func.attr == 'eval' for n in ast.walk(fn))
@@ -338,6 +351,76 @@ def eval_sites(facts):
             else:
                 handle(fn, fname, function_paths(facts, fn))
     return sites
+
+
+def free_name_value(facts, top_fn, name):
+    """Symbolic value of a local of `top_fn` that its nested functions read as a free variable: bound by exactly one plain
+    assignment at the top level of the function body (`const_env = ChainMap(constants)`); None otherwise."""
+    params = {a.arg for a in top_fn.args.posonlyargs + top_fn.args.args + top_fn.args.kwonlyargs}
+    if name in params:
+        return None
+    stores = [n for n in ast.walk(top_fn) if isinstance(n, ast.Name) and n.id == name and isinstance(n.ctx, (ast.Store, ast.Del))]
+    binds = [st for st in top_fn.body if isinstance(st, ast.Assign) and len(st.targets) == 1 and isinstance(st.targets[0], ast.Name) and st.targets[0].id == name]
+    if len(stores) != 1 or len(binds) != 1:
+        return None
+    st = PathState()
+    for p_ in params:
+        st.env[p_] = ('name', p_)
+    return Walker(facts).sym(binds[0].value, st)
+
+
+def helper_result_use(top_fn, helper):
+    """How the number returned by the nested helper `helper` is used by the functions of `top_fn` that call it: 'decision' when
+    every call's result only ever stands inside a comparison (directly, or through a local that is only compared), 'item' when it is
+    handed to a call / stored, None when the flow is not followed."""
+    calls = [n for n in ast.walk(top_fn) if isinstance(n, ast.Call) and isinstance(n.func, ast.Name) and n.func.id == helper]
+    if not calls:
+        return None
+    verdict = 'decision'
+
+    def use_of(expr):
+        """'decision' | 'item' | ('bound', name, function) | None for the expression node `expr` holding the number."""
+        child, par = expr, getattr(expr, '_parent', None)
+        while par is not None:
+            if isinstance(par, ast.Compare):
+                return 'decision'
+            if isinstance(par, ast.BinOp) and isinstance(par.op, (ast.Mod, ast.BitAnd, ast.Sub, ast.Add)):
+                child, par = par, getattr(par, '_parent', None)
+                continue
+            if isinstance(par, ast.Call):
+                return 'item' if child is not par.func else None
+            if isinstance(par, ast.Assign) and par.value is child and len(par.targets) == 1 and isinstance(par.targets[0], ast.Name):
+                fn = par
+                while fn is not None and not isinstance(fn, (ast.FunctionDef, ast.Lambda)):
+                    fn = getattr(fn, '_parent', None)
+                return ('bound', par.targets[0].id, fn)
+            if isinstance(par, (ast.If, ast.While, ast.IfExp)) and par.test is child:
+                return 'decision'
+            if isinstance(par, (ast.BoolOp, ast.UnaryOp)):
+                # truthiness of the number / a boolean of it: still a decision unless the result is stored
+                child, par = par, getattr(par, '_parent', None)
+                continue
+            return None
+        return None
+    for c in calls:
+        u = use_of(c)
+        if isinstance(u, tuple):
+            _, nm, fn = u
+            if fn is None:
+                return None
+            stores = [n for n in ast.walk(fn) if isinstance(n, ast.Name) and n.id == nm and isinstance(n.ctx, ast.Store)]
+            for n in ast.walk(fn):
+                if isinstance(n, ast.Name) and n.id == nm and isinstance(n.ctx, ast.Load):
+                    u2 = use_of(n)
+                    if u2 == 'item' and len(stores) == 1:
+                        return 'item'
+                    if u2 != 'decision':
+                        verdict = None          # (with several bindings of the name a use may belong to another value)
+        elif u == 'item':
+            return 'item'
+        elif u != 'decision':
+            verdict = None
+    return verdict
 
 
 def additive_const(total, base):
@@ -363,13 +446,27 @@ def receiver_flag(site, flag='is_auipc_jump'):
     if not (recv[0] == 'attr' and recv[2] == 'imm'):
         return 'not-item'
     item = recv[1]
+    return flag_from_conds(site.path.conds, item, flag)
+
+
+def flag_from_conds(conds, item, flag='is_auipc_jump'):
+    """True / False / None: what the path conditions say about <item>.<flag> (the attribute or getattr(item, flag[, default]),
+    tested bare, negated, or compared with True / False)."""
     target = ('attr', item, flag)
+
+    def is_flag(t):
+        if t[0] == 'mcall' and t[2] == 'get' and t[3] and t[3][0] == C(flag) and (len(t[3]) == 1 or t[3][1] in (C(False), C(None))) \
+                and t[1] in (('call', 'vars', (item,), ()), ('attr', item, '__dict__')):
+            return True           # vars(item).get('flag', False)
+        return t == target or (t[0] == 'call' and t[1] == 'getattr' and len(t[2]) >= 2 and t[2][0] == item and t[2][1] == C(flag))
     val = None
-    for t, pol, _ in site.path.conds:
-        if t == target:
+    for t, pol, _ in conds:
+        while t[0] == 'un' and t[1] == 'not':
+            t, pol = t[2], not pol
+        if is_flag(t):
             val = pol
-        if t[0] == 'call' and t[1] == 'getattr' and len(t[2]) >= 2 and t[2][0] == item and t[2][1] == C(flag):
-            val = pol
+        elif t[0] == 'cmp' and t[1] in ('==', 'is', '!=', 'is not') and is_flag(t[2]) and is_const(t[3]) and isinstance(t[3][1], bool):
+            val = (pol == t[3][1]) if t[1] in ('==', 'is') else (pol != t[3][1])
     return val
 
 
@@ -456,12 +553,7 @@ def wrapper_call_sites(facts, wr):
                             if contains(val_, v):
                                 post = additive_const(val_, v)
                 item_v = v[2][w['item']]
-                flag = None
-                for t, pol, _ in p.conds:
-                    if t == ('attr', item_v, 'is_auipc_jump'):
-                        flag = pol
-                    if t[0] == 'call' and t[1] == 'getattr' and len(t[2]) >= 2 and t[2][0] == item_v and t[2][1] == C('is_auipc_jump'):
-                        flag = pol
+                flag = flag_from_conds(p.conds, item_v)
                 found.append(dict(fn=qual, node=ev[2], item=item_v, pos=v[2][w['pos']], wrapper=v[1],
                                   kind='BAKE' if baked else ('RETURN' if returned else 'PEEK'), post=post, path=p, flag=flag))
 
@@ -528,6 +620,12 @@ def check_auipc(report, facts, rule_adj, rule_sib):
     # evaluation point on a path that does not know the item carries is_auipc_jump moves every ordinary %lo(%offset(L)) operand
     for wname, w in sorted(wr.items()):
         for flag, k, post, s in w['cases']:
+            if k and flag is None and any('is_auipc_jump' in show(t) for t, pol, _ in s.path.conds):
+                # the path does look at the flag, in a way that is not read (`'is_auipc_jump' in vars(item)`): whether the
+                # displacement is restricted to marked items is not decided
+                report.undecided('R-auipc: {} moves the evaluation point by {:+d} under a test of is_auipc_jump that is not read ({})'.format(
+                    wname, k, s.path.cond_text()[-80:]))
+                continue
             if k and flag is not True:
                 report.fail(Finding(rule_adj, wname, s.node,
                                     'the evaluation point is moved by {:+d} on a path that is not restricted to is_auipc_jump items ({}): an ordinary instruction whose operand has '
@@ -576,6 +674,16 @@ def check_auipc(report, facts, rule_adj, rule_sib):
             # which rules use this predicate is not known (the compression relation could not be lifted): no verdict
             raise AnalysisError('R-auipc: the compression relation could not be lifted, so it is not known whether {} is ever applied to an is_auipc_jump item'.format(fn_qual))
         return not any(p_ in relevant_factories for p_ in parts[1:])
+    def mentions_flag(*fnames):
+        """Does any of these functions (top-level name of a qualified name) read the attribute name at all?"""
+        for q in fnames:
+            fn_ = facts.funcs.get(q.split('.')[0])
+            if fn_ is None:
+                return True
+            for n_ in ast.walk(fn_):
+                if (isinstance(n_, ast.Attribute) and n_.attr == 'is_auipc_jump') or (isinstance(n_, ast.Constant) and n_.value == 'is_auipc_jump'):
+                    return True
+        return False
     # effective (position offset, post correction) for an is_auipc_jump item, per entry site
     entries = []          # (where, k, post, kind, node, fn, note)
     for s in sites:
@@ -593,7 +701,8 @@ def check_auipc(report, facts, rule_adj, rule_sib):
             report.ok(rule_sib, where + ': receiver is known to be Arithmetic (position-independent)')
             continue
         if flag is True or flag is None:
-            entries.append((where, k, s.post or 0, s.kind, s.node, s.fn, 'flag known true' if flag else 'flag not consulted'))
+            note = 'flag known true' if flag else ('flag not consulted' if mentions_flag(s.fn) else 'flag never tested')
+            entries.append((where, k, s.post or 0, s.kind, s.node, s.fn, note))
     for c in wcalls:
         w = wr[c['wrapper']]
         if c.get('flag') is False:
@@ -611,7 +720,8 @@ def check_auipc(report, facts, rule_adj, rule_sib):
                 raise AnalysisError('R-auipc: wrapper {} post-processes the evaluated immediate in a way the rule cannot follow'.format(c['wrapper']))
             note = 'via {}'.format(c['wrapper'])
             if flag is None and c.get('flag') is None:
-                note = 'flag not consulted'
+                # a site that never looks at the flag treats a marked item like any other: that *is* its evaluation point
+                note = 'flag not consulted' if mentions_flag(c['wrapper'], c['fn']) else 'flag never tested'
             entries.append(('{}:{}'.format(c['fn'], c['node'].lineno), kc + k, (c['post'] or 0) + post, c['kind'], c['node'], c['fn'], note))
     # (a) adjust-after-nonlinear, at every level
     seen = set()
@@ -632,6 +742,11 @@ def check_auipc(report, facts, rule_adj, rule_sib):
         bake = [e for e in entries if e[3] == 'BAKE']
         if not bake:
             raise AnalysisError('R-auipc: no baking site for item immediates found')
+        if nonlinear and not any(e[6] != 'flag not consulted' for e in bake):
+            # the expansions mark the jalr of an auipc pair, but no baking path is known to be the one taken for a marked item
+            # (the flag is tested in a way that is not read, or not at all): which evaluation point such an item gets is not decided
+            raise AnalysisError('R-auipc: items are built with is_auipc_jump=True, but on no path of the baking site ({}) is the flag known to be set: '
+                                'the evaluation point of the marked jalr is not established'.format(', '.join(sorted({e[0] for e in bake}))))
         ref = {(e[1], e[2]) for e in bake if e[6] != 'flag not consulted'} or {(e[1], e[2]) for e in bake}
         for e in sorted(entries, key=lambda t: t[0]):
             if e[3] == 'BAKE':
